@@ -27,7 +27,18 @@ from rustscan import mask, Source, AnchorLost
 LIFTS = {
     # nom::multi::count itself (not a use of it in /repo): the closure it returns, made a first-order function over
     # (f, count, i) so that the TRUSTED specification of `count` in contracts/verus/nom_prims.rs becomes an obligation
-    "nom_count": {"kind": "nomfn", "file": "src/multi/mod.rs", "fn": "count", "name": "vf_nom_count"},
+    "nom_count": {"kind": "nomfn", "file": "src/multi/mod.rs", "fn": "count", "name": "vf_nom_count",
+                  "sig": r"pub fn count<I, O, E, F>\(mut f: F, count: usize\) -> impl FnMut\(I\) -> IResult<I, Vec<O>, E>",
+                  "generics": "<'a, O, F: Fn(&'a [u8]) -> nom::IResult<&'a [u8], O>>", "params": "f: F, count: usize", "ret": "Vec<O>"},
+    "nom_complete": {"kind": "nomfn", "file": "src/combinator/mod.rs", "fn": "complete", "name": "vf_nom_complete",
+                     "sig": r"pub fn complete<I: Clone, O, E: ParseError<I>, F>\(mut f: F\) -> impl FnMut\(I\) -> IResult<I, O, E>",
+                     "generics": "<'a, O, F: Fn(&'a [u8]) -> nom::IResult<&'a [u8], O>>", "params": "f: F", "ret": "O"},
+    "nom_cond": {"kind": "nomfn", "file": "src/combinator/mod.rs", "fn": "cond", "name": "vf_nom_cond",
+                 "sig": r"pub fn cond<I, O, E: ParseError<I>, F>\(\s*b: bool,\s*mut f: F,\s*\) -> impl FnMut\(I\) -> IResult<I, Option<O>, E>",
+                 "generics": "<'a, O, F: Fn(&'a [u8]) -> nom::IResult<&'a [u8], O>>", "params": "b: bool, f: F", "ret": "Option<O>"},
+    "nom_map": {"kind": "nomfn", "file": "src/combinator/mod.rs", "fn": "map", "name": "vf_nom_map",
+                "sig": r"pub fn map<I, O1, O2, E, F, G>\(mut parser: F, mut f: G\) -> impl FnMut\(I\) -> IResult<I, O2, E>",
+                "generics": "<'a, O1, O2, F: Fn(&'a [u8]) -> nom::IResult<&'a [u8], O1>, G: Fn(O1) -> O2>", "params": "parser: F, f: G", "ret": "O2"},
     "ipfix_sets": {
         "src": "expanded", "mod": "variable_versions::ipfix", "impl": r"impl<'nom> IPFix", "fn": "parse_be",
         "select": ("mapres", 0),
@@ -140,14 +151,14 @@ def build_nomfn(name, repo):
     if not pm0:
         raise AnchorLost("nom %s: closure parameter changed shape" % spec["fn"])
     whole = open(path).read()
-    sig = re.search(r"pub fn %s<I, O, E, F>\(mut f: F, count: usize\) -> impl FnMut\(I\) -> IResult<I, Vec<O>, E>" % spec["fn"], whole)
+    sig = re.search(spec["sig"], whole)
     if not sig:
         raise AnchorLost("nom %s: signature changed shape" % spec["fn"])
     b = mono(b0, log)
     extra = [
-        (r"\bf\.parse\(", "f(", "f.parse(x)->f(x)", 1),
-        (r"\bE::append\(\s*\w+\s*,\s*nom::error::ErrorKind::\w+\s*,\s*(\w+)\s*\)", r"\1", "E::append(_,_,e)->e", 1),
-        (r"\bfor _ in\b", "for _k in", "for _->for _k", 1),
+        (r"\b(f|parser)\.parse\(", r"\1(", "f.parse(x)->f(x)", 1),
+        (r"\bE::append\(\s*\w+\s*,\s*nom::error::ErrorKind::\w+\s*,\s*(\w+)\s*\)", r"\1", "E::append(_,_,e)->e", None),
+        (r"\bfor _ in\b", "for _k in", "for _->for _k", None),
         (r"crate::lib::std::mem::", "core::mem::", "mem path", None),
     ]
     for rx, rep, nm, want in extra:
@@ -163,8 +174,8 @@ def build_nomfn(name, repo):
             raise AnchorLost("nom constant %s not found" % c)
         consts += cm.group(0) + "\n"
     out = ("// synthetic source built by tools/lift.py (build_nomfn) from nom-%s %s\n%s"
-           "fn %s<'a, O, F: Fn(&'a [u8]) -> nom::IResult<&'a [u8], O>>(f: F, count: usize, %s: &'a [u8]) -> nom::IResult<&'a [u8], Vec<O>> {%s}\n"
-           % (ver, spec["file"], consts, spec["name"], pm0.group(1), b))
+           "fn %s%s(%s, %s: &'a [u8]) -> nom::IResult<&'a [u8], %s> {%s}\n"
+           % (ver, spec["file"], consts, spec["name"], spec["generics"], spec["params"], pm0.group(1), spec["ret"], b))
     meta = {"lift": name, "from": "nom-%s %s fn %s" % (ver, spec["file"], spec["fn"]), "nom_version": ver,
             "nom_%s_sha256" % spec["fn"]: hashlib.sha256(raw0.encode()).hexdigest()[:16], "monomorphisation": log}
     return out, meta
